@@ -17,7 +17,7 @@ LEVEL_TEXT = ("Exhaustive exploration at run time: every Element/Isotope object 
 LEVEL_NOTE = "trusted: the symbol->Z table in this module; species = module-level objects of cherab.core.atomic.elements"
 QUICK = dict(cases=300, workers=1, timecap=60)
 THOROUGH = dict(cases=20000, workers=4, timecap=300)
-REQUIRED = {"elements": 80, "isotopes": 250, "lookup": 3000, "pair_law": 100000, "line_law": 100}
+REQUIRED = {"elements": 80, "isotopes": 250, "lookup": 3000, "pair_law": 100000, "line_law": 100, "foreign_copy_law": 1000}
 
 _PT = ("H He Li Be B C N O F Ne Na Mg Al Si P S Cl Ar K Ca Sc Ti V Cr Mn Fe Co Ni Cu Zn Ga Ge As Se Br Kr Rb Sr Y Zr "
        "Nb Mo Tc Ru Rh Pd Ag Cd In Sn Sb Te I Xe Cs Ba La Ce Pr Nd Pm Sm Eu Gd Tb Dy Ho Er Tm Yb Lu Hf Ta W Re Os Ir "
@@ -62,6 +62,10 @@ def fixed_cases(tier):
     cases = [{"kind": "registry"}]
     cases += [{"kind": "species", "var": n} for n in names]
     cases += [{"kind": "pairs", "var": n} for n in names]
+    # copies made by ANOTHER interpreter process (different str-hash salt), by pickle / deepcopy in this one
+    cases += [{"kind": "foreign_copies", "how": "other-process-pickle", "hashseed": 4242},
+              {"kind": "foreign_copies", "how": "other-process-pickle", "hashseed": 7},
+              {"kind": "foreign_copies", "how": "pickle"}, {"kind": "foreign_copies", "how": "deepcopy"}]
     return cases
 
 
@@ -201,6 +205,52 @@ def run_case(case, ctx):
             ctx.check(abs(i.atomic_weight - i.mass_number) <= 0.1, "isotope-weight",
                       "isotope %s weight %r differs from mass number %s by more than 0.1 u" % (i.name, i.atomic_weight, i.mass_number),
                       monitor="isotope_laws")
+        return
+    if kind == "foreign_copies":
+        import pickle, copy as _copy, subprocess, sys, os, tempfile
+        ctx.cls("foreign-copies:" + case["how"])
+        names = [n for n, _ in _S["species"]]
+        objs = [o for _, o in _S["species"]]
+        lines = [Line(o, 0, (3, 2)) for o in objs[::7]] + [Line(o, min(1, o.atomic_number), ("3d", "2p")) for o in objs[3::11]]
+        if case["how"] == "other-process-pickle":
+            here = os.path.dirname(os.path.dirname(os.path.dirname(os.path.abspath(__file__))))
+            fd, path = tempfile.mkstemp(suffix=".pkl", dir=ctx.home if getattr(ctx, "home", None) else None)
+            os.close(fd)
+            code = ("import sys, pickle; sys.path.insert(0, %r)\n"
+                    "import vf.core as c; c.redirect_repo()\n"
+                    "import cherab.core.atomic.elements as em\n"
+                    "from cherab.core.atomic import Line\n"
+                    "names = %r\n"
+                    "objs = [getattr(em, n) for n in names]\n"
+                    "lines = [Line(o, 0, (3, 2)) for o in objs[::7]] + [Line(o, min(1, o.atomic_number), ('3d', '2p')) for o in objs[3::11]]\n"
+                    "pickle.dump((objs, lines), open(%r, 'wb'))\n") % (here, names, path)
+            env = dict(os.environ, PYTHONHASHSEED=str(case["hashseed"]))
+            r = subprocess.run([sys.executable, "-c", code], env=env, capture_output=True, text=True, timeout=600)
+            if r.returncode != 0:
+                ctx.viol("foreign-copies:other-process-cannot-pickle", "another interpreter could not pickle the registry species / lines",
+                         stderr=r.stderr[-1500:])
+                os.unlink(path)
+                return
+            with open(path, "rb") as f:
+                cobjs, clines = pickle.load(f)
+            os.unlink(path)
+        elif case["how"] == "pickle":
+            cobjs, clines = pickle.loads(pickle.dumps((objs, lines)))
+        else:
+            cobjs, clines = _copy.deepcopy((objs, lines))
+        ctx.nontrivial()
+        sset, sdict = set(objs), {o: k for k, o in enumerate(objs)}
+        lset = set(lines)
+        for label, orig, cop, aset, adict in (("species", objs, cobjs, sset, sdict), ("line", lines, clines, lset, None)):
+            for k, (a, b) in enumerate(zip(orig, cop)):
+                ctx.mon("foreign_copy_law", 3)
+                if not (a == b and b == a and not (a != b)):
+                    ctx.viol("foreign-copy:%s:not-equal:%s" % (label, case["how"]), "a copy of %r made by %s does not compare equal to the original" % (a, case["how"]))
+                    continue
+                ctx.check(hash(a) == hash(b), "foreign-copy:%s:equal-but-hash-differs:%s" % (label, case["how"]),
+                          "copy of %r made by %s compares equal but hashes differently" % (a, case["how"]), monitor="foreign_copy_law")
+                ctx.check(b in aset and (adict is None or adict.get(b) == k), "foreign-copy:%s:not-found-as-dict-key:%s" % (label, case["how"]),
+                          "copy of %r made by %s is not found in a set / dict keyed by the originals" % (a, case["how"]), monitor="foreign_copy_law")
         return
     if kind == "pairs":
         var = case["var"]
